@@ -30,7 +30,8 @@ for p in props:
         "replay_cmd_template": f"./check {pid} --replay {{path}}",
         "engine": "vstatic",
         "level_claimed": {"category": c.get("level", "other"), "text": c["text"], "design_ref": c.get("design_ref", f"DESIGN.md §3 {pid}")},
-        "level_note": c["note"],
+        "level_note": c["note"] + " Rule " + pid + ".H (every property): no walked function returns a value read from module-/class-level "
+                      "state whose key does not determine it (def-use dataflow, vstatic/memo.py).",
         "technique": c["technique"],
     })
 m = {
